@@ -163,7 +163,8 @@ func streamC19(env *runEnv) {
 	lines := []string{"full address:s:host:3389", "username:s:bob", "audiomode:i:1", "x:i:-5", "x:i:+7", "x:i:", "x:i:1_0", "x:i:0x10",
 		"x:i: 12 ", " spaced key : s : v ", "# comment", "", "   ", "nocolon", "one:colon", "x:q:1", "x:b:0", "x:B:0", "x::",
 		"x:i:9223372036854775808", "x:i:-9223372036854775808", "x:s:a:b:c", "\u00a0x:s:1\u2003", "x:s:\u3000v", "k:s:v\r", "k:s:v\r\r",
-		"x:i:１", ":s:emptykey", "::", "#:s:x", "x:s:#", "a:s:1\x00", "dup:s:1", "dup:i:2"}
+		"x:i:１", ":s:emptykey", "::", "#:s:x", "x:s:#", "a:s:1\x00", "dup:s:1", "dup:i:2",
+		"x:s", "x:i", "x:b", "drivestoredirect:s", "Password:b", "x:s:", "x:i:0"}
 	nb := 1500
 	if env.thorough() {
 		nb = 40000
